@@ -4,6 +4,7 @@ import (
 	"go/ast"
 	"go/token"
 	"go/types"
+	"golang.org/x/tools/go/packages"
 	"strings"
 )
 
@@ -181,11 +182,12 @@ func samplingRules(c *Ctx) {
 		permRaw []string
 	}
 	var samples []samp
+	allCmps := collectCmps(c.P) // with the comparisons of unexported helpers, read at their call sites
 	for _, name := range []string{"ComputeProposerIndex", "ComputeSyncCommitteeIndices"} {
 		pk, fd := c.P.mustFunc("eth2/beacon/common", name)
 		info := pk.TypesInfo
 		var s samp
-		for _, site := range cmpsIn(pk, fd, "common."+name, nil, nil, nil, nil) {
+		for _, site := range allCmps["common."+name] {
 			if !strings.Contains(site.pr.String(), "MAX_EFFECTIVE_BALANCE") {
 				continue
 			}
@@ -290,8 +292,64 @@ func samplingRules(c *Ctx) {
 	}
 	// proposers per slot: SLOTS_PER_EPOCH entries, entry i from the seed of slot start+i (the seed formula itself is
 	// formula.spec's common.ComputeProposers call:PutUint64#1)
-	pk4, f4 := c.P.mustFunc("eth2/beacon/common", "ComputeProposers")
+	pk4, f4top := c.P.mustFunc("eth2/beacon/common", "ComputeProposers")
 	info4 := pk4.TypesInfo
+	// the per-slot loop may live in an unexported helper of the package (two levels)
+	cands := []*ast.FuncDecl{f4top}
+	for round := 0; round < 2; round++ {
+		for _, cf := range append([]*ast.FuncDecl{}, cands...) {
+			ast.Inspect(cf.Body, func(n ast.Node) bool {
+				if call, ok := n.(*ast.CallExpr); ok {
+					if f := calleeFunc(info4, call); f != nil && !f.Exported() && f.Pkg() == pk4.Types {
+						c.P.funcDecls(func(p2 *packages.Package, f2 *ast.FuncDecl) {
+							if p2 == pk4 && f2.Body != nil && p2.TypesInfo.Defs[f2.Name] == f {
+								dup := false
+								for _, e := range cands {
+									if e == f2 {
+										dup = true
+									}
+								}
+								if !dup {
+									cands = append(cands, f2)
+								}
+							}
+						})
+					}
+				}
+				return true
+			})
+		}
+	}
+	f4 := f4top
+	for _, cf := range cands {
+		hasLoop := false
+		ast.Inspect(cf.Body, func(n ast.Node) bool {
+			if l, ok := n.(*ast.ForStmt); ok {
+				ast.Inspect(l.Body, func(m ast.Node) bool {
+					if cl, ok := m.(*ast.CallExpr); ok {
+						if f := calleeFunc(info4, cl); f != nil && f.Name() == "ComputeProposerIndex" {
+							hasLoop = true
+						}
+					}
+					return true
+				})
+			}
+			if l, ok := n.(*ast.RangeStmt); ok {
+				ast.Inspect(l.Body, func(m ast.Node) bool {
+					if cl, ok := m.(*ast.CallExpr); ok {
+						if f := calleeFunc(info4, cl); f != nil && f.Name() == "ComputeProposerIndex" {
+							hasLoop = true
+						}
+					}
+					return true
+				})
+			}
+			return true
+		})
+		if hasLoop {
+			f4 = cf
+		}
+	}
 	defs4 := singleDefs(info4, f4.Body)
 	parents4 := parentMap(f4.Body)
 	var loopVar types.Object
